@@ -500,6 +500,11 @@ async fn maintenance(net: Net, seed: u64, npeers: usize, minutes: u64, mask: u64
     }
     let oracle = Arc::new(Mutex::new(OracleNet::new(nodes)));
     oracle.lock().unwrap().answer_delay_max = 300;
+    // in every second run the network forgets its dead: two minutes after a peer fell silent the others stop naming it
+    // (otherwise a silent peer keeps being named for ever and the "gone within 20 minutes" clause never comes due)
+    if seed % 2 == 1 {
+        oracle.lock().unwrap().forget_dead_after = Some(120_000);
+    }
     let addrs = oracle.lock().unwrap().addrs();
     net.with(|n| n.faults.max_latency_ms = 600);
     let me: SocketAddr = v4(10, 0, 0, 1, 7000);
@@ -557,6 +562,10 @@ async fn bootstrap_scn(net: Net, seed: u64) {
     oracle.lock().unwrap().answer_delay_max = 200;
     let addrs = oracle.lock().unwrap().addrs();
     net.with(|n| n.faults.max_latency_ms = 500);
+    // one run in four: every datagram arrives twice, back to back (a contact's answer is read twice before anybody consumed it)
+    if seed % 4 == 3 {
+        net.with(|n| { n.faults.dup_pct = 100; n.faults.dup_back_to_back = true; });
+    }
     net.add_scripted(&addrs, Box::new(oracle.clone()));
     let me: SocketAddr = v4(10, 0, 0, 1, 7000);
     let contacts: Vec<SocketAddr> = addrs[..ncontacts].to_vec();
@@ -648,6 +657,21 @@ async fn early_search(net: Net, seed: u64) {
     let me: SocketAddr = v4(10, 0, 0, 1, 7000);
     let dht = start_node(&net, &NodeCfg { addr: me, id: Some(my_id), read_only: true, announce_port: None, nodes: vec![addrs[0]], routers: vec![] });
     let w = wait_bootstrapped(&net, &dht, me, 1);
+    // in two runs out of three the application also polls get_state() every virtual millisecond while the bootstrap is under way
+    // (so that some status query is handled in the very instant the bootstrap completes); the polls are not recorded
+    let polling = Arc::new(std::sync::atomic::AtomicBool::new(seed % 3 != 0));
+    if seed % 3 != 0 {
+        let (d2, p2, n2) = (dht.clone(), polling.clone(), net.clone());
+        tokio::task::spawn_local(async move {
+            while p2.load(std::sync::atomic::Ordering::Relaxed) {
+                if tokio::time::timeout(std::time::Duration::from_secs(10), d2.get_state()).await.ok().flatten().is_none() {
+                    n2.log(json!({"ev":"ApiState","node":addr_json(&me),"alive":false}));
+                    break;
+                }
+                sleep_ms(1).await;
+            }
+        });
+    }
     // early searches at different moments; the same hash may be searched twice (with and without announce)
     let moments: Vec<u64> = match seed % 5 { 0 => vec![0], 1 => vec![0, 100], 2 => vec![0, 0, 3100], 3 => vec![50, 1200, 2600, 3300], _ => vec![0, 4000] };
     let mut early = vec![];
@@ -670,6 +694,8 @@ async fn early_search(net: Net, seed: u64) {
         net.with(|n| n.down = false);
     }
     let _ = tokio::time::timeout(std::time::Duration::from_secs(900), w).await;
+    sleep_ms(50).await;
+    polling.store(false, std::sync::atomic::Ordering::Relaxed);
     // the twin: the same search right after bootstrapped() resolved (nothing was announced yet: announces happen at the end
     // of the early searches, which run concurrently; therefore the twin is compared with the non-announcing early searches only
     // when no announcing early search exists)
